@@ -30,7 +30,7 @@ impl Compiler {
         }
 
         // fallback to CallGlobalNative for 'type' and other builtins
-        let idx = self.get_or_create_global_index(name);
+        let idx = self.get_or_create_global_index(name)?;
         self.accessed_globals.insert(name.to_string());
 
         if idx > 255 {
